@@ -19,6 +19,7 @@ func init() {
 		},
 		Assumptions: commonAssumptions,
 		Engines:     "WHO, MIRROR/ROLE (canonical argument fingerprints), GUARD, PATH, TABLE, STATE",
+		TagMatrix:   [][]string{{"integration"}},
 		Run:         runC01,
 	})
 }
